@@ -26,6 +26,8 @@ def make_cfg(rs, tier):
     cfg["nobj"] = rs.choice([2, 2, 3])
     cfg["p_outside"] = 0.0
     cfg["oracles"] = ["backend", "result", "children"]
+    cfg["p_synced_operand"] = rs.choice([0.0, 0.1])
+    cfg["p_handle_store"] = rs.choice([0.0, 0.05])
     return cfg
 
 
